@@ -23,10 +23,21 @@
 (* the target saw: calling thread, call, argument, semaphore holder at     *)
 (* that moment) plus which calls on the forwarder have returned.           *)
 (***************************************************************************)
-EXTENDS Naturals, Sequences, FiniteSets, TLC, Json, SequencesExt
+EXTENDS Naturals, Sequences, FiniteSets, TLC, Json, SequencesExt, IOUtils
 
 CONSTANTS
     Record        \* TRUE: keep the observation variable `hist` (export / simulate configs)
+
+\* What happens to the forwarder's buffers when the target raises inside a block:
+\*   "asRequired"  the block's buffers (_test_start, _test_tags) are cleared whenever the block ends,
+\*                 so the next test's block carries that test's own tags (what C12 demands of every block)
+\*   "asCoded"     real.py:1295-1313 as it is: `self._test_tags = set(), set()` sits between the tags calls and
+\*                 the outcome and `self._test_start = None` after the try/finally - a raise before the outcome
+\*                 leaves the test-local tags buffered (they leak into the next test's block), any raise leaves
+\*                 _test_start set (a tags() call before the next startTest is buffered as test-local)
+\* The properties are model-checked under asRequired; asCoded is what conformance of the code is checked against
+\* (the harness probes which of the two the tree under test implements) and must violate BlockShape.
+Variant == IOEnv.C12_VARIANT
 
 Free == 0
 None == "none"
@@ -111,6 +122,8 @@ Local(t) ==
           /\ buf' = IF it.kind = "test"
                     THEN [buf EXCEPT ![t] = [start |-> StartT(t, i), now |-> EndT(t, i),
                                              gt |-> gt1, xt |-> Merge(xt0, it.xt)]]
+                    \* startTestRun: "run-level tags buffered for the previous run are gone with it"
+                    ELSE IF it.kind = "startTestRun" THEN [buf EXCEPT ![t].gt = NoTags]
                     ELSE buf
     /\ pc' = [pc EXCEPT ![t] = "acq"]
     /\ UNCHANGED <<work, faults, sem, tlog, ncalls, exc, completed, raisedAt>>
@@ -167,7 +180,9 @@ Release(t) ==
     /\ pc' = [pc EXCEPT ![t] = "idle"]
     /\ IF exc[t]
        THEN /\ raisedAt' = raisedAt \cup {<<t, idx[t]>>}
-            /\ UNCHANGED <<completed, buf>>
+            /\ buf' = IF Variant = "asRequired" /\ Item(t).kind = "test"
+                      THEN [buf EXCEPT ![t].start = 0, ![t].xt = NoTags] ELSE buf
+            /\ UNCHANGED completed
        ELSE /\ completed' = completed \cup {<<t, idx[t]>>}
             /\ buf' = IF Item(t).kind = "test" THEN [buf EXCEPT ![t].start = 0] ELSE buf
             /\ UNCHANGED raisedAt
@@ -209,10 +224,12 @@ Contiguous ==
                   /\ About(tlog[j]) \in {0, About(tlog[i])}
                   /\ tlog[j].call \notin RunLevel
 
-\* global tags of thread t as of its i-th item: fold of _merge_tags over the tags() given outside tests
+\* global tags of thread t as of its i-th item: fold of _merge_tags over the tags() given outside tests since the
+\* forwarder's last startTestRun
 RECURSIVE GlobalTags(_, _)
 GlobalTags(t, i) == IF i = 0 THEN NoTags
                     ELSE IF work[t][i].kind = "test" THEN Merge(GlobalTags(t, i - 1), work[t][i].gt)
+                    ELSE IF work[t][i].kind = "startTestRun" THEN NoTags      \* a new run starts without tags
                     ELSE GlobalTags(t, i - 1)
 
 Expected(t, i) ==
@@ -222,10 +239,9 @@ Expected(t, i) ==
     \o (IF AnyTags(it.xt) THEN << <<"tags", 0, it.xt>> >> ELSE <<>>)
     \o << <<it.out, d, NoTags>>, <<"stopTest", d, NoTags>> >>
 
-FaultBefore(t, p) == \E j \in 1..(p - 1) : tlog[j].thr = t /\ tlog[j].f
-
-\* each complete block in which the target did not raise (and before which it had not raised for that
-\* thread) is exactly: start time, startTest, end time, that test's own tags, its outcome, stopTest
+\* EVERY complete block in which the target did not raise - also the blocks a thread reports after the target
+\* raised on an earlier one - is exactly: start time, startTest, end time, that test's own tags, its outcome,
+\* stopTest
 BlockShape ==
     \A p \in DOMAIN tlog : tlog[p].call = "startTest" =>
         LET d == tlog[p].v
@@ -236,7 +252,7 @@ BlockShape ==
            /\ ends # {} =>
                 LET q == CHOOSE x \in ends : \A y \in ends : x <= y
                     blk == SubSeq(tlog, p - 1, q)
-                IN (~FaultBefore(t, q + 1)) =>
+                IN (\A j \in DOMAIN blk : ~blk[j].f) =>
                       [j \in DOMAIN blk |-> Shape(blk[j])] = Expected(t, IndexOf(d))
 
 OutIdx(t) == SelectSeq([j \in DOMAIN tlog |-> j], LAMBDA j : tlog[j].thr = t /\ IsOutcome(tlog[j]))
